@@ -699,6 +699,25 @@ def stats_limit_lines(toks):
     return lines
 
 
+def case_variant_lines(toks):
+    """denominations that differ only by case are different denominations: the coin credited is the coin that leaves, whatever else
+    (the minting denomination, a warp token's collateral) is spelled almost like it and happens to sit on the orbiter account"""
+    lines, _ = scen.base_setup()
+    tok = {d: t for (t, d) in toks}
+    for dn in ("UUSDC", "uUsdc", "UOTHER"):
+        lines.append("escrowfund %s %s %d" % (hx("channel-0"), hx(dn), 10 ** 12))
+    lines.append("deposit %s %s 500" % (hx(ORB_BYTES), hx("uusdc")))
+    lines.append("deposit %s %s 500" % (hx(ORB_BYTES), hx("uother")))
+    fee = [fee_action([(U[4], "b", 100)])]
+    for dn in ("UUSDC", "uUsdc", "UOTHER"):
+        for rt in (hyp_fwd(tok["uusdc"], domain=1), hyp_fwd(tok["uother"], domain=1), cctp_fwd(domain=0), int_fwd(U[1])):
+            for acts in (None, fee):
+                for op in ("recv", "recvh"):
+                    lines.append(orb_pkt(op, 500, rt, acts, denom=dn))
+    lines.append("export")
+    return lines
+
+
 def shared_scenarios(seed, toks, tier, skip=()):
     """scenario generators written for one property and useful to every property about the outcome of a transfer: each property
     runs them at its own projection and under its own oracle"""
@@ -716,6 +735,7 @@ def shared_scenarios(seed, toks, tier, skip=()):
     add("attribute-shapes", lambda: c05_lines(Rng(seed * 1000 + 905), toks, n))
     add("fee-boundaries", lambda: c04_e2e_lines(Rng(seed * 1000 + 906), 30))
     add("pause-levels", lambda: scen.base_setup()[0] + ["deposit %s %s %d" % (hx(POOL), hx("uother"), 10 ** 30)] + pause_targeted(toks))
+    add("case-variant-denominations", lambda: case_variant_lines(toks))
     add("spellings", lambda: scen.base_setup()[0] + [pkt_line("recv", ftpd("transfer/channel-7/uusdc", 100000, ORB, m)) for m in scen._camel_combo_memos()])
     return [(name, fn()) for (name, fn) in out]
 
@@ -1725,6 +1745,15 @@ def pause_targeted(toks):
         lines.append(msg_line("UnpauseProtocol", AUTHORITY, hx(p)))
         lines.append(orb_pkt("recv", 10 ** 6, fwd, None, denom=dn))
         lines.append("export")
+    # more paused destinations than any page holds: the export and a restart from it keep every one of them
+    lines.append(msg_line("PauseCrossChains", AUTHORITY, hx("PROTOCOL_CCTP"), *[hx(str(i)) for i in range(0, 100)]))
+    lines.append(msg_line("PauseCrossChains", AUTHORITY, hx("PROTOCOL_CCTP"), *[hx(str(i)) for i in range(100, 130)]))
+    lines += ["export", "reimport", "export", "query IsCrossChainPaused %s %s" % (hx("PROTOCOL_CCTP"), hx("99")),
+              "query IsCrossChainPaused %s %s" % (hx("PROTOCOL_CCTP"), hx("129")), "query PausedCrossChains %s nopage" % hx("PROTOCOL_CCTP"),
+              orb_pkt("recv", 10 ** 6, cctp_fwd(domain=99), None), orb_pkt("recv", 10 ** 6, cctp_fwd(domain=5), None), orb_pkt("recv", 10 ** 6, cctp_fwd(domain=130), None)]
+    lines.append(msg_line("UnpauseCrossChains", AUTHORITY, hx("PROTOCOL_CCTP"), *[hx(str(i)) for i in range(0, 100)]))
+    lines.append(msg_line("UnpauseCrossChains", AUTHORITY, hx("PROTOCOL_CCTP"), *[hx(str(i)) for i in range(100, 130)]))
+    lines.append("export")
     # one spelling per identifier: what the pause messages refuse, the queries refuse too (while domain 5 is paused)
     for p in ("PROTOCOL_CCTP", "PROTOCOL_HYPERLANE"):
         lines.append(msg_line("PauseCrossChains", AUTHORITY, hx(p), hx("5")))
@@ -1737,6 +1766,11 @@ def pause_targeted(toks):
     for c in ("channel-0", "channel-00", "Channel-0", "channel-", "channel-18446744073709551616", "", "noble"):
         lines.append("query IsCrossChainPaused %s %s" % (hx("PROTOCOL_IBC"), hx(c)))
         lines.append("query IsCrossChainPaused %s %s" % (hx("PROTOCOL_INTERNAL"), hx(c)))
+    # both actions paused, every listing query, a restart from the export: the paused set is what the messages made it
+    lines += [msg_line("PauseAction", AUTHORITY, hx("ACTION_SWAP")), msg_line("PauseAction", AUTHORITY, hx("ACTION_FEE")), "query ActionIDs", "query ProtocolIDs",
+              "query PausedActions", "query IsActionPaused " + hx("ACTION_SWAP"), "query IsActionPaused " + hx("ACTION_FEE"), "export", "reimport", "export", "query PausedActions",
+              orb_pkt("recv", 10 ** 6, int_fwd(U[1]), fee), orb_pkt("recv", 10 ** 6, int_fwd(U[1]), None),
+              msg_line("UnpauseAction", AUTHORITY, hx("ACTION_SWAP")), msg_line("UnpauseAction", AUTHORITY, hx("ACTION_FEE")), "query PausedActions"]
     # actions
     for a in ("ACTION_FEE", "ACTION_SWAP"):
         lines.append(msg_line("PauseAction", AUTHORITY, hx(a)))
@@ -1771,6 +1805,7 @@ def pause_history(r, n, toks, actions_focus=False):
         lines.append(msg_line("UnpauseAction", AUTHORITY, hx(x)))
     lines.append("query PausedActions")
     lines.append("query PausedProtocols")
+    lines += ["query ActionIDs", "query ProtocolIDs"]
     lines.append(orb_pkt("recv", 10 ** 6, int_fwd(U[1]), [fee_action([(U[4], "b", 100)])]))
     for _ in range(n):
         k = r.below(100)
@@ -1797,7 +1832,9 @@ def pause_history(r, n, toks, actions_focus=False):
                 lines[-1] = "msgdry" + lines[-1][3:]
         elif k < 60:
             q = r.below(7)
-            if q == 0:
+            if r.chance(1, 12):
+                lines.append(r.choice(["query ActionIDs", "query ProtocolIDs", "export", "reimport"]))
+            elif q == 0:
                 lines.append("query PausedProtocols")
             elif q == 1:
                 lines.append("query PausedActions")
@@ -1896,6 +1933,12 @@ def c10_lines(r, n):
     for sg in signers + [AUTHORITY]:
         lines.append("msgh ReplaceDepositForBurn %s %s %s %s %s" % (hx(sg), hx(orig), hx(b"\x02" * 65), hx(b"\x03" * 32), hx(b"\x04" * 32)))
         lines.append("msgh ReplaceDepositForBurn %s %s %s %s %s" % (hx(sg), hx(b"\x01" * 10), hx(b"\x02" * 65), "-", "-"))
+    # the authority's own valid message goes through whatever the pause switches say
+    for prep in ([], [msg_line("PauseCrossChains", AUTHORITY, hx("PROTOCOL_CCTP"), hx("0"))], [msg_line("UnpauseProtocol", AUTHORITY, hx("PROTOCOL_CCTP"))],
+                 [msg_line("PauseProtocol", AUTHORITY, hx("PROTOCOL_CCTP"))]):
+        lines += prep
+        lines.append("msgh ReplaceDepositForBurn %s %s %s %s %s" % (hx(AUTHORITY), hx(orig), hx(b"\x02" * 65), hx(b"\x05" * 32), hx(b"\x06" * 32)))
+    lines.append(msg_line("UnpauseCrossChains", AUTHORITY, hx("PROTOCOL_CCTP"), hx("0")))
     # the authority with valid content succeeds
     lines += [msg_line("UnpauseProtocol", AUTHORITY, hx("PROTOCOL_CCTP")), msg_line("UnpauseAction", AUTHORITY, hx("ACTION_FEE")),
               msg_line("UnpauseCrossChains", AUTHORITY, hx("PROTOCOL_INTERNAL"), hx("noble")), msg_line("UpdateParams", AUTHORITY, "5"),
@@ -1962,7 +2005,7 @@ class C10(Base):
 
     def streams(self, tier, seed):
         r = Rng(seed * 1000 + 10)
-        f = {"msg": ["res", "st"]}
+        f = {"msg": ["res", "st"], "msgh": ["res", "hreq", "st"]}
         surf, rpcs = c10_surface_lines(r.fork(2), self.n(tier, 8, 50))
         return [Stream("S3-rpc-signer-body-grid", c10_lines(r.fork(1), self.n(tier, 200, 2000)), fields=f, oracle=c10_oracle),
                 Stream("S3-descriptor-enumerated-surface", surf, model=False, oracle=c10_oracle, note="%d RPCs from the service descriptors: %s" % (len(rpcs), ",".join(x[0].split("/")[-1] for x in rpcs)))]
